@@ -58,6 +58,8 @@ type dworld struct {
 	syncs      int64
 	noMonitors bool
 	caseID     string
+	// requests judged by the always-on monitors M-TARGET and M-STRATEGY
+	targetJudged, strategyJudged int
 }
 
 var dworldSeq int64
@@ -324,6 +326,8 @@ func (w *dworld) observe(key string, run func() error) *syncResult {
 			sim.R().Violation("C17", w.reportID(), "cache-mutated:"+rs, "an object in a shared informer cache changed during a decorator sync although its resourceVersion did not (mutated in place):\n"+d,
 				map[string]interface{}{"key": key})
 		}
+		w.judgeTargetWrites(res)
+		w.judgeStrategy(res)
 		if res.Cached != nil {
 			ri, _ := sim.InfoByKind(res.Cached.GetAPIVersion(), res.Cached.GetKind())
 			ctx := sim.OwnCtx{ParentGVR: ri.GVR(), ParentKey: objKey(res.Cached.GetNamespace(), res.Cached.GetName()), ParentUID: string(res.Cached.GetUID()), DecoratorMarker: w.cfg.ID, RevisionGVR: env.RevisionGVR}
@@ -405,6 +409,8 @@ func (w *dworld) flushCounters(prop string) {
 		r.Counter("C02", "judged_decorator_"+k, int64(w.ownCounts[k]))
 	}
 	r.Counter(prop, "decorator_syncs", atomic.LoadInt64(&w.syncs))
+	r.Counter("C16", "target_writes_judged_by_mtarget", int64(w.targetJudged))
+	r.Counter("C06", "decorator_attachment_requests_judged_by_mstrategy", int64(w.strategyJudged))
 	if !w.noMonitors {
 		// every scenario is also a C17 case: its syncs ran under the cache-fingerprint oracle
 		r.Case("C17", "mcache-"+w.reportID(), atomic.LoadInt64(&w.cacheObjs) > 0, "mcache/"+w.reportID(), nil)
